@@ -279,16 +279,32 @@ def wl_cms(ctx, rng, case):
                 else:
                     c = min(0.9999999, (1 - 2.0 ** -rng.randint(1, 16)) * (1 + d))
             todo.append((c, e))
+    # the request given as exact numbers of other numeric types the constructor accepts (decimal.Decimal, fractions.Fraction)
+    from fractions import Fraction
+
+    exact = [("0.95", "0.003"), ("0.9", "0.07"), ("0.99", "0.0003"), ("0.5", "0.002"), ("0.999", "0.3"), ("0.875", "0.0007")]
+    if case.index == 0:
+        todo += [(Decimal(c), Decimal(e)) for c, e in exact] + [(Fraction(c), Fraction(e)) for c, e in exact] + [(float(c), Decimal(e)) for c, e in exact[:3]]
+    elif rng.random() < 0.5:
+        c, e = rng.choice(exact)
+        e = str(round(rng.uniform(0.0003, 0.9), rng.randint(3, 5)))
+        todo.append((Decimal(c), Decimal(e)) if rng.random() < 0.5 else (Fraction(c), Fraction(e)))
+
+    def D(x):
+        return Decimal(x.numerator) / Decimal(x.denominator) if isinstance(x, Fraction) else Decimal(x)
+
     case.desc = {"kind": "count-min", "n_pairs": len(todo)}
     for conf, err in todo:
         cls = rng.choice([P.CountMinSketch, P.CountMeanSketch, P.CountMeanMinSketch, P.HeavyHitters, P.StreamThreshold])
         kw = {}
         s = cls(confidence=conf, error_rate=err, **kw)
         where = f"for confidence={conf!r}, error_rate={err!r} ({cls.__name__})"
+        if not isinstance(err, float):
+            ctx.count("cms.requests_as_decimal_or_fraction")
         w, d = s.width, s.depth
         ctx.check(isinstance(w, int) and isinstance(d, int) and w >= 1 and d >= 1, f"width/depth not positive integers {where}", width=w, depth=d)
-        ctx.check(Decimal(2) / Decimal(w) <= Decimal(err) * (ONE + SL), f"2/width exceeds the requested error rate {where}", width=w)
-        ctx.check(ONE - ONE / (Decimal(2) ** d) >= Decimal(conf) * (ONE - SL), f"1 - 2^-depth is below the requested confidence {where}", depth=d)
+        ctx.check(Decimal(2) / Decimal(w) <= D(err) * (ONE + SL), f"2/width exceeds the requested error rate {where}", width=w)
+        ctx.check(ONE - ONE / (Decimal(2) ** d) >= D(conf) * (ONE - SL), f"1 - 2^-depth is below the requested confidence {where}", depth=d)
         ctx.check(s.confidence == conf and s.error_rate == err, f"confidence/error_rate accessors do not report the request {where}")
         s2 = cls(confidence=conf, error_rate=err)
         ctx.check((s2.width, s2.depth) == (w, d), f"two constructions disagree {where}")
